@@ -17,7 +17,7 @@ if [ -n "${VERIF_REPO:-}" ] && [ "$VERIF_REPO" != "/repo" ]; then
   mkdir -p "$VERIF_EVIDENCE_DIR" "$VERIF_REPLAY_DIR"
   export VERIF_RACEPASS_BIN="/verif/bin/racepass$suffix"
 fi
-cleanup() { [ -n "$suffix" ] && rm -f "bin/vcheck$suffix" "bin/vcheck-c20$suffix" "bin/racepass$suffix" "bin/alt$suffix.mod" "bin/alt$suffix.sum" "bin/build$suffix.err"; [ -n "${ov:-}" ] && rm -rf "$ov"; }
+cleanup() { [ -n "$suffix" ] && rm -f "bin/overlay$suffix.log" "bin/vcheck$suffix" "bin/vcheck-c20$suffix" "bin/racepass$suffix" "bin/alt$suffix.mod" "bin/alt$suffix.sum" "bin/build$suffix.err"; [ -n "${ov:-}" ] && rm -rf "$ov"; }
 trap cleanup EXIT
 berr="bin/build$suffix.err"
 build_plain() {
